@@ -1363,6 +1363,13 @@ def install_tracing():
             dict.__delitem__(self, k)
             Tr.ev('PreDel', self.owner, Tr.nid(k))
 
+        def pop(self, k, *a):
+            had = k in self
+            r = dict.pop(self, k, *a)
+            if had:
+                Tr.ev('PreDel', self.owner, Tr.nid(k))
+            return r
+
     orig_ci = ctxmod.AbstractContext.__init__
 
     def ci(self, inference_state):
@@ -1413,7 +1420,7 @@ FP_EXPECTED = {
     "jedi/api/completion.py:Completion.complete": "3747374f6b35dcab",
     "jedi/api/completion.py:filter_names": "154450354571d473",
     "jedi/inference/references.py:find_references": "36a783259b902a62",
-    "jedi/inference/context.py:AbstractContext.predefine_names": "5fbb5e406253d408",
+    "jedi/inference/context.py:AbstractContext.predefine_names": "ffa21e5a72cacb85",
     "jedi/inference/recursion.py:execution_allowed": "60b71c1bb8abe0ed",
     "jedi/inference/recursion.py:execution_recursion_decorator": "6c60662bd3c25cfa",
     "jedi/inference/__init__.py:InferenceState.reset_recursion_limitations": "beb0afd7c566cf14",
